@@ -30,6 +30,8 @@ type Prog struct {
 	pkgDirs      map[string]string
 	mutGlobals   map[*ssa.Global]bool // package-level variables assigned outside package initialisers
 	noExport     map[string]bool      // ensures obligations with an open known finding: never assumed at call sites
+	ghostSets    map[*ssa.Function]map[string]bool
+	findings     map[string][]KnownFinding // by obligation name
 }
 
 func loadProg(repo, verifDir string) (*Prog, error) {
@@ -138,8 +140,10 @@ func loadProg(repo, verifDir string) (*Prog, error) {
 	p.noExport = map[string]bool{}
 	var kf KFFile
 	if readJSON(filepath.Join(verifDir, "known_findings.json"), &kf) == nil {
+		p.findings = map[string][]KnownFinding{}
 		for _, f := range kf.Findings {
 			p.noExport[f.Obligation] = true
+			p.findings[f.Obligation] = append(p.findings[f.Obligation], f)
 		}
 	}
 	for _, fc := range cs.Funcs {
@@ -210,7 +214,7 @@ func (p *Prog) closedFor(t types.Type) ([]types.Type, bool) {
 	return ts, true
 }
 
-var ghostDeclRe = regexp.MustCompile(`^(\$[A-Za-z0-9_]+)\s+(\S+)\s*=\s*(.*)$`)
+var ghostDeclRe = regexp.MustCompile(`^(\$[A-Za-z0-9_]+)\s+(\(.*\)|\S+)\s*=\s*(.*)$`)
 var setsRe = regexp.MustCompile(`^(\$[A-Za-z0-9_]+)\s*=\s*(.*)$`)
 
 // ---- running one unit ---------------------------------------------------------------
@@ -261,6 +265,14 @@ func (p *Prog) verifyFunc(fn *ssa.Function) (u *Unit) {
 			// ghost $name Sort = expr
 			m := ghostDeclRe.FindStringSubmatch(c.Expr)
 			if m == nil {
+				// ghost $name Sort   (no initialiser: arbitrary value, e.g. state shared with the creator of a closure)
+				f := strings.Fields(c.Expr)
+				if len(f) >= 2 && strings.HasPrefix(f[0], "$") {
+					so := strings.Join(f[1:], " ")
+					g := u.declOnce("ghost0."+f[0][1:], so)
+					s.ghost[f[0]] = Term{S: g.S, Sort: so}
+					continue
+				}
 				panic(abortUnit{fmt.Sprintf("%s:%d: bad ghost declaration", c.File, c.Line)})
 			}
 			env := u.bodyEnv(s, fn)
@@ -278,7 +290,7 @@ func (p *Prog) verifyFunc(fn *ssa.Function) (u *Unit) {
 			s.ghost[m[1]] = Term{S: t.S, Sort: t.Sort}
 		}
 		for _, c := range u.fc.Clauses {
-			if c.Kind == "requires" || c.Kind == "assume" {
+			if c.Kind == "requires" || c.Kind == "assume" || c.Kind == "closure-invariant" {
 				env := u.bodyEnv(s, fn)
 				env.paramsEntry = true
 				g, err := env.formula(c.Expr)
@@ -319,7 +331,28 @@ func (p *Prog) verifyFunc(fn *ssa.Function) (u *Unit) {
 			env.names["result"] = rets[0]
 		}
 		for _, c := range u.fc.Clauses {
-			if c.Kind != "ensures" && c.Kind != "ensures-local" {
+			if c.Kind != "ensures" && c.Kind != "ensures-local" && c.Kind != "closure-invariant" {
+				continue
+			}
+			if c.Kind == "closure-invariant" {
+				// about captured variables and ghost state only: current values
+				env2 := u.bodyEnv(s2, fn)
+				g, err := env2.formula(c.Expr)
+				if err != nil {
+					panic(abortUnit{fmt.Sprintf("%s:%d: %v", c.File, c.Line, err)})
+				}
+				// needed only when the closure lets its caller continue (nil error or filepath.SkipDir)
+				if n := len(rets); n > 0 && rets[n-1].Sort == "Iface" {
+					cont := fmt.Sprintf("(= (itype %s) 0)", rets[n-1].S)
+					if sk, err := env2.term("filepath.SkipDir"); err == nil {
+						cont = fmt.Sprintf("(or %s (= %s %s))", cont, rets[n-1].S, sk.S)
+					}
+					g = fmt.Sprintf("(=> %s %s)", cont, g)
+				}
+				saved := s2.pc
+				s2.pc = append([]string{}, saved...)
+				u.oblige(s2, labelWithFn(c.Label, u.fnShort(fn))+".preserved", c.Props, "ensures", g, pos)
+				s2.pc = saved
 				continue
 			}
 			g, err := env.formula(c.Expr)
@@ -400,4 +433,82 @@ func (p *Prog) theoremUnits() []*Unit {
 		out = append(out, u)
 	}
 	return out
+}
+
+var setsNameRe = regexp.MustCompile(`^(\$[A-Za-z0-9_]+)`)
+
+// ghostsSetBy: names of ghost variables that calling fn may set (through library contracts with `sets`
+// clauses), "*" if unknown code can run (dynamic calls, interface calls without a closed implementor set).
+func (p *Prog) ghostsSetBy(fn *ssa.Function) map[string]bool {
+	if p.ghostSets == nil {
+		p.ghostSets = map[*ssa.Function]map[string]bool{}
+	}
+	if m, ok := p.ghostSets[fn]; ok {
+		return m
+	}
+	m := map[string]bool{}
+	p.ghostSets[fn] = m // recursion guard
+	for _, b := range fn.Blocks {
+		for _, in := range b.Instrs {
+			if mc, ok := in.(*ssa.MakeClosure); ok {
+				for k := range p.ghostsSetBy(mc.Fn.(*ssa.Function)) {
+					m[k] = true
+				}
+			}
+			ci, ok := in.(ssa.CallInstruction)
+			if !ok {
+				continue
+			}
+			c := ci.Common()
+			if _, isB := c.Value.(*ssa.Builtin); isB {
+				continue
+			}
+			name := calleeName(c)
+			if fc := p.libContract(name, len(c.Args)); fc != nil || p.cs.Funcs[fmt.Sprintf("%s/%d", name, len(c.Args))] != nil {
+				if fc == nil {
+					fc = p.cs.Funcs[fmt.Sprintf("%s/%d", name, len(c.Args))]
+				}
+				for _, cl := range fc.Clauses {
+					if cl.Kind == "sets" {
+						if mm := setsNameRe.FindStringSubmatch(cl.Expr); mm != nil {
+							m[mm[1]] = true
+						}
+					}
+				}
+				continue
+			}
+			callee := c.StaticCallee()
+			if callee == nil {
+				if c.IsInvoke() {
+					if impls, ok := p.closedFor(c.Value.Type()); ok {
+						for _, T := range impls {
+							if sel := p.prog.MethodSets.MethodSet(T).Lookup(c.Method.Pkg(), c.Method.Name()); sel != nil {
+								if mv := p.prog.MethodValue(sel); mv != nil {
+									for k := range p.ghostsSetBy(mv) {
+										m[k] = true
+									}
+								}
+							}
+						}
+						continue
+					}
+				}
+				m["*"] = true
+				continue
+			}
+			if callee.Pkg != nil && strings.HasPrefix(callee.Pkg.Pkg.Path(), p.modulePath) {
+				for k := range p.ghostsSetBy(callee) {
+					m[k] = true
+				}
+				continue
+			}
+			// library function without a contract: it cannot set ghost state unless it is given a closure
+			for _, a := range c.Args {
+				if _, isSig := a.Type().Underlying().(*types.Signature); isSig {
+					m["*"] = true
+				}
+			}
+		}
+	}
+	return m
 }
